@@ -145,6 +145,29 @@ example :
     s.closed = true ∧ s.rdQ = [[1, 2, 3]] ∧ s.wr = .idle ∧ s.rd = .idle ∧ s.wpc = .sel := by
   decide
 
+/-- **after_close, a Write in progress**: a `Write` that is blocked on the full send queue when
+    `Close` is called comes back with an error: wherever the worker waits it can leave (the
+    `select`, the retry wait — `after_close` — and, with the hand-over that also watches the
+    close channel, the enqueue of a response nobody reads); two steps after leaving it has closed
+    the send channel without touching the pending Write, whose send then fails. -/
+theorem after_close_write_in_progress (fixed : Bool) (s : State) (b : Bytes) (hw : s.wr = .enq b) :
+    (s.closed = true → ∀ body, s.wpc = .enq body → (step fixed s .wClose).wpc = .x1) ∧
+    (s.wpc = .x1 → (run fixed s [.wStep, .wStep]).wrClosed = true ∧
+      (run fixed s [.wStep, .wStep]).wr = .enq b) ∧
+    (s.wrClosed = true → (step fixed s .writeEnq).out = .wFail :: s.out ∧
+      (step fixed s .writeEnq).wr = .idle) := by
+  refine ⟨fun hc body hs => ?_, fun hs => ?_, fun hcl => ?_⟩
+  · simp [step, hs, hc]
+  · simp [run, step, stepWorker, hs, hw]
+  · simp [step, stepWriteEnq, hw, hcl, say]
+
+/-- the reader is gone, the queues are full, a Write is blocked, `Close`: the Write fails -/
+example :
+    let s : State := { closed := true, wpc := .enq [9], wr := .enq [1], rdQ := List.replicate 16 [7],
+                       wrQ := List.replicate 16 [1] }
+    (run true s [.writeEnq, .wClose, .wStep, .wStep, .writeEnq]).out = [.wFail] := by
+  decide
+
 /-- **F7, the defect of the released `Read`** (`fixed = false`): a response arrives, the
     application closes the connection, `Close` returns — and the next `Read` still returns the
     leftover response data with a nil error. -/
